@@ -101,11 +101,13 @@ theorem literal_lines_any_break (ind : Nat) (hind : ind ≠ 0) (tail : Str) (ht1
       (∃ p, blockScalarLines true ind fuel a s = .panic p) ∨
       ∃ s' bl, blockScalarLines true ind fuel a s =
           .ok (⟨a.str ++ a.leadingBreak ++ a.trailingBreaks ++ joinB l ls, ['\n'], [], bl⟩, s') ∧
-        s'.inp.kind = .str ∧ s'.inp.iter = tail ∧ s'.mark.col = 0 ∧ s'.mark.line = s.mark.line + ls.length + 1 := by
+        s'.inp.kind = .str ∧ s'.inp.iter = tail ∧ s'.mark.col = 0 ∧ s'.mark.line = s.mark.line + ls.length + 1 ∧
+        s'.mark.index + tail.length = s.mark.index + s.inp.iter.length := by
   intro ls
   induction ls with
   | nil =>
     intro l b a s fuel hl _ hk hcol hi
+    generalize hT : s.mark.index + s.inp.iter.length = T
     cases fuel with
     | zero => left; exact ⟨_, rfl⟩
     | succ f =>
@@ -136,6 +138,7 @@ theorem literal_lines_any_break (ind : Nat) (hind : ind ≠ 0) (tail : Str) (ht1
         have hk5 : s5.inp.kind = .str := by rw [← hs5]; exact hk
         have hi5 : s5.inp.iter = b.txt ++ restLinesB ind [] tail := by rw [← hs5]; rfl
         have hl5 : s5.mark.line = s.mark.line := by rw [← hs5]; rfl
+        have hx5 : s5.mark.index = s.mark.index + (c0 :: l0).length := by rw [← hs5]; rfl
         obtain ⟨cb, rb, hbr, hcb1, hcb2⟩ := brk_head b (restLinesB ind [] tail)
         rw [nextIs_str_eval _ _ s5 hk5, hi5, hbr]
         simp only [hcb2, Bool.false_eq_true, ↓reduceIte]
@@ -159,12 +162,17 @@ theorem literal_lines_any_break (ind : Nat) (hind : ind ≠ 0) (tail : Str) (ht1
               show ((0 + 0 : Nat) != ind) = true
               simp; omega
             simp only [h2, ↓reduceIte]
-            refine ⟨_, _, rfl, hk5, rfl, rfl, ?_⟩
-            show s5.mark.line + 1 = s.mark.line + 0 + 1
-            rw [hl5]
+            refine ⟨_, _, rfl, hk5, rfl, rfl, ?_, ?_⟩
+            · show s5.mark.line + 1 = s.mark.line + 0 + 1
+              rw [hl5]
+            · show s5.mark.index + b.txt.length + 0 + tail.length = _
+              rw [hx5, ← hT, hi]
+              simp only [List.length_append, restLinesB]
+              omega
   | cons p' ls' ih =>
     obtain ⟨l', b'⟩ := p'
     intro l b a s fuel hl hls hk hcol hi
+    generalize hT : s.mark.index + s.inp.iter.length = T
     cases fuel with
     | zero => left; exact ⟨_, rfl⟩
     | succ f =>
@@ -202,6 +210,7 @@ theorem literal_lines_any_break (ind : Nat) (hind : ind ≠ 0) (tail : Str) (ht1
         have hk5 : s5.inp.kind = .str := by rw [← hs5]; exact hk
         have hi5 : s5.inp.iter = b.txt ++ R := by rw [← hs5]; rfl
         have hl5 : s5.mark.line = s.mark.line := by rw [← hs5]; rfl
+        have hx5 : s5.mark.index = s.mark.index + (c0 :: l0).length := by rw [← hs5]; rfl
         obtain ⟨cb, rb, hbr, hcb1, hcb2⟩ := brk_head b R
         rw [nextIs_str_eval _ _ s5 hk5, hi5, hbr]
         simp only [hcb2, Bool.false_eq_true, ↓reduceIte]
@@ -226,15 +235,23 @@ theorem literal_lines_any_break (ind : Nat) (hind : ind ≠ 0) (tail : Str) (ht1
               { (nlB s5 b R).inp with iter := (c1 :: l1) ++ (b'.txt ++ restLinesB ind ls' tail), la := la' }).mark.col = ind := by
             show 0 + ind = ind; omega
           rcases ih (c1 :: l1) b' ⟨a.str ++ a.leadingBreak ++ a.trailingBreaks ++ (c0 :: l0), ['\n'], [], isBlank c0⟩ _ f hl'
-              (fun x hx => hls x (by simp [hx])) hk8 hc8 rfl with ⟨p, hp⟩ | ⟨s', bl, hok, hks, his, hcs, hls'⟩
+              (fun x hx => hls x (by simp [hx])) hk8 hc8 rfl with ⟨p, hp⟩ | ⟨s', bl, hok, hks, his, hcs, hls', hxs'⟩
           · left; exact ⟨p, hp⟩
           · right
-            refine ⟨s', bl, ?_, hks, his, hcs, ?_⟩
+            refine ⟨s', bl, ?_, hks, his, hcs, ?_, ?_⟩
             · rw [hok]
               simp [joinB, joinLines, List.append_assoc]
             · rw [hls']
               show s5.mark.line + 1 + ls'.length + 1 = s.mark.line + (ls'.length + 1) + 1
               rw [hl5]; omega
+            · rw [hxs']
+              show s5.mark.index + b.txt.length + ind + ((c1 :: l1) ++ (b'.txt ++ restLinesB ind ls' tail)).length = _
+              have hRl : R.length = ind + ((c1 :: l1) ++ (b'.txt ++ restLinesB ind ls' tail)).length := by
+                have := congrArg List.length hi7
+                simpa [List.length_append, List.length_replicate, nlB] using this
+              rw [hx5, ← hT, hi]
+              simp only [List.length_append] at hRl ⊢
+              omega
 
 /-- the joined lines contain no carriage return: every break in the decoded text is a line feed -/
 theorem joinLines_no_cr : ∀ (ls : List Str) (l : Str), (∀ c ∈ l, nb c = true) → (∀ l' ∈ ls, ∀ c ∈ l', nb c = true) →
